@@ -16,7 +16,7 @@
 From Coq Require Import NArith ZArith List Bool Lia.
 From Coq.Strings Require Import Byte.
 From Opcua Require Import Model.CodecTypes Model.Codec Model.CodecEq Proofs.CodecTotal Proofs.CodecCost Proofs.CodecCostCustoms
-  Proofs.CodecCostMain Gen.UaTypes.
+  Proofs.CodecCostMain Proofs.CodecFuel Gen.UaTypes.
 Import ListNotations.
 Open Scope Z_scope.
 
@@ -103,6 +103,21 @@ Proof.
   nia.
 Qed.
 
+(* the budget is only a budget: an input whose nesting stays below d (the decode with budget d does not run out) is decoded
+   identically with every larger budget -- value, rest and allocation; so the bound with d holds for Go's recursion *)
+Theorem C02_fuel_monotone : forall reg d D t bs, (d <= D)%nat -> decode reg d t bs <> OutOfFuel ->
+  decode reg D t bs = decode reg d t bs.
+Proof.
+  intros reg d D t bs Hd H. replace D with (d + (D - d))%nat by lia. apply decode_fuel_mono. exact H.
+Qed.
+
+Theorem C02_partial_memory_depth : forall d D t bs, In t all_tys -> (d <= D)%nat -> decode gen_reg d t bs <> OutOfFuel ->
+  let len := N.of_nat (length bs) in
+  (res_alloc (decode gen_reg D t bs) <= (N.of_nat d + 1) * ((3854 + 7 * len) * len + 5770137))%N.
+Proof.
+  intros d D t bs Hin Hd H len. rewrite (C02_fuel_monotone gen_reg d D t bs Hd H). apply C02_partial_memory. exact Hin.
+Qed.
+
 (* what the bound means in numbers, with the limit of 100 levels that the TODOs in variant.go ask for and a 64 KiB message:
    3.1e12 bytes with the dimension term (7 * len per byte and level: finding variant-dimension-count), 2.6e10 without it, of
    which 101 * 5.8 MB are the per-level slack (finding nesting-amplification): the bound is a statement about the SHAPE of the
@@ -164,6 +179,8 @@ Print Assumptions C02_total.
 Print Assumptions C02_depth.
 Print Assumptions C02_cost_registry.
 Print Assumptions C02_partial_memory.
+Print Assumptions C02_fuel_monotone.
+Print Assumptions C02_partial_memory_depth.
 Print Assumptions C02_refuted_depth.
 Print Assumptions C02_refuted_amplification.
 Print Assumptions C02_refuted_dimensions.
